@@ -394,3 +394,95 @@ def body_with_call(fb, start_body, pat, depth=2):
         if x is not start_body and x.calls(pat):
             return x
     return start_body
+
+
+
+def closures_passed(fb, b, term):
+    """bodies of the closures passed as arguments of this call"""
+    out = []
+    for a in term.get('args', []):
+        d = cfg.describe_operand(b, a)
+        if d.get('k') == 'agg' and d['rv'].get('ak') == 'closure' and fb.has(d['rv']['def']):
+            out.append(fb.get(d['rv']['def']))
+    return out
+
+
+def flag_polarity(fb, b, op, field, depth=0):
+    """+1 if the bool operand equals <some place>.field, -1 if it is its negation, 0 if it depends on the field in a way not decided here,
+    None if it does not depend on it. Follows Not, pass-through calls, Option::map / is_some_and / map_or with a closure returning the flag,
+    unwrap_or / unwrap_or_default."""
+    return _pol_desc(fb, b, cfg.describe_operand(b, op), field, depth)
+
+
+def _pol_desc(fb, b, d, field, depth):
+    if depth > 8:
+        return 0
+    d = cfg.strip_calls(b, d)
+    if d['k'] == 'place':
+        return 1 if d['fields'][-1:] == [field] else None
+    if d['k'] == 'un' and d['op'] == 'Not':
+        p = flag_polarity(fb, b, d['a'], field, depth + 1)
+        return -p if p else p
+    if d['k'] == 'multi':
+        ps = set()
+        for df in d['defs']:
+            if df[0] == 'stmt' and df[3].get('rv') is not None:
+                rv = df[3]['rv']
+                if rv.get('k') == 'un' and rv.get('op') == 'Not':
+                    p = flag_polarity(fb, b, rv['a'], field, depth + 1)
+                    ps.add(-p if p else p)
+                else:
+                    for o in rv_operands(rv):
+                        ps.add(flag_polarity(fb, b, o, field, depth + 1))
+            elif df[0] == 'call':
+                ps.add(_pol_desc(fb, b, {'k': 'call', 'bb': df[1], 'term': df[3]}, field, depth + 1))
+        ps.discard(None)
+        return None if not ps else 0
+    if d['k'] == 'call':
+        f = (d['term'].get('f') or {}).get('d', '')
+        args = d['term'].get('args', [])
+        if re.search(r'Option::<T>::(unwrap_or|unwrap_or_default|unwrap|expect)$', f) and args:
+            return flag_polarity(fb, b, args[0], field, depth + 1)
+        cls = closures_passed(fb, b, d['term'])
+        if cls and re.search(r'Option::<T>::(map|is_some_and|map_or|is_none_or|and_then)$', f):
+            for cb in cls:
+                ret = _pol_desc(fb, cb, cfg.trace_local(cb, 0, 0), field, depth + 1)
+                if ret is not None:
+                    return ret
+        for a in args:
+            if flag_polarity(fb, b, a, field, depth + 1) is not None:
+                return 0
+        for cb in cls:
+            if field in read_fields(cb):
+                return 0
+    return None
+
+
+def flag_guards(fb, b, bb, field, loop_next=True):
+    """switches on <x>.field that decide whether bb is reached: list of (polarity_needed, switch_bb) where polarity_needed is True if bb is
+    only reachable (without going round a loop) when field is true, False when only if field is false, None if the polarity is not decided."""
+    out = []
+    nxt = [x.bb for x in b.calls(r'Iterator>::next$')] if loop_next else []
+    by_src = {}
+    for (src, dst, lab, term) in cfg.switch_edges(b):
+        by_src.setdefault(src, []).append((dst, lab, term))
+    for src, edges in by_src.items():
+        term = edges[0][2]
+        pol = flag_polarity(fb, b, term['discr'], field)
+        if pol is None:
+            continue
+        reach = {}
+        for (dst, lab, _) in edges:
+            reach[lab] = bb in cfg.reach_from(b, [dst], blocked_blocks=nxt) or dst == bb
+        if all(reach.values()) or not any(reach.values()):
+            continue
+        if pol == 0:
+            out.append((None, src))
+            continue
+        vals = set()
+        for (dst, lab, _) in edges:
+            if reach[lab]:
+                ep = cfg.edge_polarity(term, lab)
+                vals.add(ep if pol > 0 else (None if ep is None else not ep))
+        out.append((vals.pop() if len(vals) == 1 else None, src))
+    return out
